@@ -9,6 +9,7 @@ import WgslVerif.Props.C06
 import WgslVerif.Props.C06Repr
 import WgslVerif.Props.C16
 import WgslVerif.Props.C07
+import WgslVerif.Props.C07Buffer
 /-
 Driver checks for the properties whose specification is a decidable predicate `CxxOk m out`
 proved of the model in Props/Cxx: the same predicate is evaluated on the REAL output.
@@ -88,7 +89,10 @@ def c14 (c : Ctx) (r : Run) : Verdict :=
       .fail s!"c14#{cl}: fragment {shortRepr (o.fragmentEntries.map fun f => (f.fnName, f.n)) 200} needed {shortRepr ((m.entries.filter fun e => e.stage == .fragment).map fun e => (e.name, targetsNeeded m e.fn)) 200}"
     { corr := corr, spec := spec,
       tags := if m.entries.isEmpty then [] else
-        (m.entries.map fun e => match e.stage with | .vertex => "vs" | .fragment => "fs" | .compute => "cs").eraseDups ++ [s!"entries{min m.entries.length 9}"] }
+        (m.entries.map fun e => match e.stage with | .vertex => "vs" | .fragment => "fs" | .compute => "cs").eraseDups ++ [s!"entries{min m.entries.length 9}"] ++
+        -- what the helpers have to return when they are RUN (exec oracle): (helper, entry name, targets / buffers)
+        ((m.entries.filter fun e => e.stage == .fragment).map fun e => s!"fe;{e.name}_entry;{e.name};{targetsNeeded m e.fn}") ++
+        ((m.entries.filter fun e => e.stage == .vertex).map fun e => s!"ve;{e.name}_entry;{e.name};{structParamCount m e}") }
   | _, _ => { corr := corr, spec := .skip "no-output" }
 
 def c15 (c : Ctx) (r : Run) : Verdict :=
@@ -245,11 +249,20 @@ def vertexStructOkB (m : Module) (v : RVertex) : Bool :=
     v.attrs.all (fun a => (WgpuVertex.formatInfo a.format).isSome) &&
     v.count == v.attrs.length && v.strideOf == v.name && v.attrsOf == v.name
 
+/-- some field does not start where the previous one ended, or the struct has tail padding -/
+def hasPadding (items : List (Nat × Nat)) : Bool :=
+  (ReprC.layout items).2 != (items.map (·.1)).foldl (· + ·) 0
+
+/-- wgpu's default `max_vertex_buffer_array_stride` -/
+def vertexStrideLimit : Nat := 2048
+
 def c07 (c : Ctx) (r : Run) : Verdict :=
   let (cmp, _) := CheckGen.compare c r
   let corr := CheckGen.corrFor cmp ["vertex-attrs", "vertex-entries"]
   match c.module, r.real with
   | some m, .ok o =>
+    if !typeArenaOkB m then { corr := .fail "hypothesis#typeArena: module outside TypeArenaOk", spec := .skip "hypothesis" } else
+    if !(m.types.all wgslWidth) then { corr := .fail "hypothesis#wgslWidth: non-boolean scalar that is not 4 or 8 bytes wide", spec := .skip "hypothesis" } else
     -- which structs are struct parameters of vertex entries
     let wanted := ((m.entries.filter fun e => e.stage == .vertex).flatMap fun e =>
       ((e.fn.args.filter fun a => a.2.isNone).filter (isStructArg m)).filterMap fun a => (m.types[a.1]?).bind (·.name)).eraseDups
@@ -271,12 +284,37 @@ def c07 (c : Ctx) (r : Run) : Verdict :=
               (ev.2.buffers.map (·.2)).eraseDups.length == ev.2.buffers.length)
           match bad with
           | some (e, v) => .fail s!"c07#entry-buffers: {e.name}: buffers {v.buffers} params {v.params}"
-          | none => if ves.length != o.vertexEntries.length then .fail "c07#entry-count: ?" else .ok
+          | none =>
+            if ves.length != o.vertexEntries.length then .fail "c07#entry-count: ?" else
+            -- wgpu-core's vertex-buffer rules on the #[repr(C)] layout of the emitted struct (C07_buffer)
+            let badBuf := o.vertex.find? fun v =>
+              match o.structs.find? (fun s => s.name == v.name) with
+              | some s => decide ((ReprC.layout (fieldItems s)).2 ≤ vertexStrideLimit) && !vertexBufferOkB vertexStrideLimit s v
+              | none => false
+            match badBuf with
+            | some v => .fail s!"c07#vertex-buffer-rules: impl {v.name}: layout {shortRepr ((o.structs.find? (fun s => s.name == v.name)).map fun s => ReprC.layout (fieldItems s)) 200} attrs {shortRepr (v.attrs.map fun a => (a.format, a.field)) 300}"
+            | none => .ok
     { corr := corr, spec := spec,
-      tags := if o.vertex.isEmpty && wanted.isEmpty then [] else
+      tags :=
+        -- expected per-entry buffers: (helper, WGSL entry name, struct parameters in order)
+        ((m.entries.filter fun e => e.stage == .vertex).map fun e =>
+          s!"ve;{e.name}_entry;{e.name};{".".intercalate (((e.fn.args.filter fun a => a.2.isNone).filter (isStructArg m)).filterMap fun a => (m.types[a.1]?).bind (·.name))}") ++
+        if o.vertex.isEmpty && wanted.isEmpty then [] else
         [s!"structs{min o.vertex.length 9}"] ++
         (if o.vertex.any (fun v => v.attrs.map (·.location) != (v.attrs.map (·.location)).mergeSort) then ["unordered-locations"] else []) ++
-        (if o.vertexEntries.any (fun v => v.buffers.length > 1) then ["multi-buffer"] else []) }
+        (if o.vertexEntries.any (fun v => v.buffers.length > 1) then ["multi-buffer"] else []) ++
+        -- predicted #[repr(C)] layouts (compared with rustc's offset_of!/size_of by the exec oracle)
+        (o.vertex.filterMap fun v => (o.structs.find? (fun s => s.name == v.name)).bind fun s =>
+          if s.fields.all (fun f => (ReprC.sizeAlign f.ty).isSome) then
+            let L := ReprC.layout (fieldItems s)
+            some s!"vb;{v.name};{L.2};{".".intercalate (L.1.map toString)};{".".intercalate (v.attrs.map (·.format))};{".".intercalate (v.attrs.map fun a => toString a.location)}"
+          else none) ++
+        (if o.vertex.any (fun v => (o.structs.find? (fun s => s.name == v.name)).isNone) then ["struct-not-emitted"] else []) ++
+        (if o.vertex.any (fun v => match o.structs.find? (fun s => s.name == v.name) with
+            | some s => decide ((ReprC.layout (fieldItems s)).2 > vertexStrideLimit) | none => false) then ["over-stride-limit"] else []) ++
+        (if o.vertex.any (fun v => match o.structs.find? (fun s => s.name == v.name) with
+            | some s => hasPadding (fieldItems s)
+            | none => false) then ["padded"] else []) }
   | _, _ => { corr := corr, spec := .skip "no-output" }
 
 end CheckSimple
